@@ -21,6 +21,7 @@ def run(ctx):
     lib_tree.mirror_pairs(ctx, P)
     lib_tree.inverse_pairs(ctx, P)
     lib_tree.transitions(ctx, P)
+    lib_tree.edge_call_args(ctx, P)
     funcs = {"tsk_tree_seek", "tsk_tree_seek_index", "tsk_tree_check_node", "tsk_tree_set_tracked_samples"}
     seen = lib_guards.analyse(ctx, P, funcs=funcs)
     lib_guards.presence(ctx, seen, funcs=funcs, P=P)
